@@ -92,3 +92,123 @@ package lua
 //@ ensures  "found": old(len(str(arg(L, 2))) > 0 && findPos(L) >= 0) ==> result == 2 && top(L) == old(top(L)) + 2 && pushed(L, 0) == old(mkNum(i2f(findInit(L) + findPos(L)) + 1)) && pushed(L, 1) == old(mkNum(i2f(findInit(L) + findPos(L) + len(str(arg(L, 2))))))
 //@ ensures  argsKept(L)
 //@ modifies L.reg.array, L.reg.top, L.reg.array[*]
+
+// ---------------------------------------------------------------------------
+// LTable array part (table.go): list view used by the table library (manual §5.5)
+// ---------------------------------------------------------------------------
+
+//@ define Inv_arr(tb *LTable) bool = tb != nil && offset(tb.array) == 0 && (arrid(tb.array) == 0 || arrid(tb.array) != arrid(tb.keys)) && (forall k int :: 0 <= k && k < len(tb.array) ==> tb.array[k] != nil)
+// listLen: the length the list operations work with = index of the last non-nil cell of the array part
+//@ define isListLen(tb *LTable, n int) bool = 0 <= n && n <= len(tb.array) && (n > 0 ==> tb.array[n-1] != LNil) && (forall k int :: n <= k && k < len(tb.array) ==> tb.array[k] == LNil)
+
+//@ func (*LTable).Len [C09 C18]
+//@ requires Inv_arr(tb)
+//@ noraise
+//@ ensures  isListLen(tb, result)
+//@ modifies nothing
+//@ loop 1 invariant -1 <= i && i < len(tb.array) && prev == LNil && arrid(tb.array) != 0
+//@ loop 1 invariant forall k int :: i < k && k < len(tb.array) ==> tb.array[k] == LNil
+
+//@ func (*LTable).MaxN [C09 C18]
+//@ requires Inv_arr(tb)
+//@ noraise
+//@ ensures  isListLen(tb, result)
+//@ modifies nothing
+//@ loop 1 invariant -1 <= i && i < len(tb.array) && arrid(tb.array) != 0
+//@ loop 1 invariant forall k int :: i < k && k < len(tb.array) ==> tb.array[k] == LNil
+
+//@ func (*LTable).RawGetInt [C09 C18]
+//@ requires Inv_arr(tb)
+//@ noraise
+//@ ensures  result == ite(1 <= key && key <= len(tb.array), tb.array[key-1], LNil)
+//@ modifies nothing
+
+//@ func (*LTable).Append [C09 C18]
+//@ requires Inv_arr(tb) && value != nil
+//@ noraise
+//@ ensures  Inv_arr(tb)
+//@ ensures  value == LNil ==> len(tb.array) == old(len(tb.array)) && forall k int :: 0 <= k && k < len(tb.array) ==> tb.array[k] == old(tb.array[k])
+//@ ensures  value != LNil ==> forall n int :: old(isListLen(tb, n)) ==> isListLen(tb, n+1) && tb.array[n] == value && (forall k int :: 0 <= k && k < n ==> tb.array[k] == old(tb.array[k]))
+//@ ensures  arrid(tb.array) == old(arrid(tb.array)) || fresh(tb.array)
+//@ modifies tb.array, tb.array[*]
+//@ loop 1 invariant -1 <= i && i <= len(tb.array) - 2 && len(tb.array) >= 1 && tb.array == old(tb.array) && tb.array[len(tb.array)-1] == LNil
+//@ loop 1 invariant forall k int :: i < k && k < len(tb.array) ==> tb.array[k] == LNil
+//@ loop 1 invariant forall k int :: 0 <= k && k < len(tb.array) ==> tb.array[k] == old(tb.array[k])
+
+//@ func (*LTable).Remove [C09 C18]
+//@ requires Inv_arr(tb)
+//@ noraise
+//@ ensures  Inv_arr(tb)
+//@ ensures  "in-range": 1 <= pos && pos <= old(len(tb.array)) ==> result == old(tb.array[pos-1]) && len(tb.array) == old(len(tb.array)) - 1 && (forall k int :: 0 <= k && k < pos-1 ==> tb.array[k] == old(tb.array[k])) && (forall k int :: pos-1 <= k && k < len(tb.array) ==> tb.array[k] == old(tb.array[k+1]))
+//@ ensures  "beyond": pos > old(len(tb.array)) ==> result == LNil && len(tb.array) == old(len(tb.array)) && (forall k int :: 0 <= k && k < len(tb.array) ==> tb.array[k] == old(tb.array[k]))
+//@ ensures  arrid(tb.array) == old(arrid(tb.array))
+//@ modifies tb.array, tb.array[*]
+
+//@ trusted (*LTable).RawSetH [C09 C18]
+//@ assume RawSetH/RawSetString touch only the hash part of the table (to be replaced by a verified contract under C09)
+//@ noraise
+//@ ensures  arrid(tb.keys) == old(arrid(tb.keys)) || fresh(tb.keys)
+//@ modifies tb.dict, tb.strdict, tb.keys, tb.k2i, tb.keys[*], tb.dict{*}, tb.strdict{*}, tb.k2i{*}
+
+//@ func (*LTable).RawSetInt [C09 C18]
+//@ requires Inv_arr(tb) && value != nil
+//@ noraise
+//@ ensures  Inv_arr(tb)
+//@ ensures  "array-key": 1 <= key && key < old(MaxArrayIndex) ==> len(tb.array) == old(max(len(tb.array), key)) && tb.array[key-1] == value && (forall k int :: 0 <= k && k < old(len(tb.array)) && k != key-1 ==> tb.array[k] == old(tb.array[k])) && (forall k int :: old(len(tb.array)) <= k && k < key-1 ==> tb.array[k] == LNil)
+//@ ensures  "hash-key": !(1 <= key && key < old(MaxArrayIndex)) ==> len(tb.array) == old(len(tb.array)) && (forall k int :: 0 <= k && k < len(tb.array) ==> tb.array[k] == old(tb.array[k]))
+//@ ensures  arrid(tb.array) == old(arrid(tb.array)) || fresh(tb.array)
+//@ modifies tb.array, tb.array[*], tb.dict, tb.strdict, tb.keys, tb.k2i, tb.keys[*], tb.dict{*}, tb.strdict{*}, tb.k2i{*}
+//@ loop 1 invariant 0 <= i && i <= index - alen && Inv_arr(tb) && len(tb.array) == alen + i && alen == old(len(tb.array)) && index == key - 1 && index > alen && arrid(tb.array) != 0 && (arrid(tb.array) == old(arrid(tb.array)) || fresh(tb.array))
+//@ loop 1 invariant forall k int :: 0 <= k && k < alen ==> tb.array[k] == old(tb.array[k])
+//@ loop 1 invariant forall k int :: alen <= k && k < alen + i ==> tb.array[k] == LNil
+
+//@ trusted (*LTable).RawSet [C09 C18]
+//@ assume (*LTable).RawSet: assumed here, verified under C09 when the hash part is under contract
+//@ requires Inv_arr(tb) && value != nil
+//@ noraise
+//@ ensures  Inv_arr(tb)
+//@ ensures  !isNum(key) || (exists n int :: n <= 0 && key == mkNum(i2f(n))) ==> len(tb.array) == old(len(tb.array)) && (forall k int :: 0 <= k && k < len(tb.array) ==> tb.array[k] == old(tb.array[k]))
+//@ ensures  arrid(tb.array) == old(arrid(tb.array)) || fresh(tb.array)
+//@ modifies tb.array, tb.array[*], tb.dict, tb.strdict, tb.keys, tb.k2i, tb.keys[*], tb.dict{*}, tb.strdict{*}, tb.k2i{*}
+
+//@ func (*LTable).Insert [C09 C18]
+//@ requires Inv_arr(tb) && value != nil
+//@ noraise
+//@ ensures  Inv_arr(tb)
+//@ ensures  "shift": 1 <= i && i <= old(len(tb.array)) ==> len(tb.array) == old(len(tb.array)) + 1 && tb.array[i-1] == value && (forall k int :: 0 <= k && k < i-1 ==> tb.array[k] == old(tb.array[k])) && (forall k int :: i <= k && k < len(tb.array) ==> tb.array[k] == old(tb.array[k-1]))
+//@ ensures  "beyond": i > old(len(tb.array)) && i < old(MaxArrayIndex) ==> len(tb.array) == i && tb.array[i-1] == value && (forall k int :: 0 <= k && k < old(len(tb.array)) ==> tb.array[k] == old(tb.array[k])) && (forall k int :: old(len(tb.array)) <= k && k < i-1 ==> tb.array[k] == LNil)
+//@ ensures  "nonpositive": i <= 0 ==> len(tb.array) == old(len(tb.array)) && (forall k int :: 0 <= k && k < len(tb.array) ==> tb.array[k] == old(tb.array[k]))
+//@ ensures  arrid(tb.array) == old(arrid(tb.array)) || fresh(tb.array)
+//@ modifies tb.array, tb.array[*], tb.dict, tb.strdict, tb.keys, tb.k2i, tb.keys[*], tb.dict{*}, tb.strdict{*}, tb.k2i{*}
+
+// ---------------------------------------------------------------------------
+// table library (tablelib.go), manual §5.5
+// ---------------------------------------------------------------------------
+
+//@ define argTab(L *LState, n int) *LTable = tab(arg(L, n))
+
+//@ func tableGetN [C18]
+//@ requires Inv_gfn(L) && isTab(arg(L, 1)) && Inv_arr(argTab(L, 1))
+//@ raises when top(L) + 1 > cap(L.reg.array)
+//@ ensures  result == 1 && top(L) == old(top(L)) + 1 && argsKept(L)
+//@ ensures  forall n int :: old(isListLen(argTab(L, 1), n)) ==> pushed(L, 0) == mkNum(i2f(n))
+//@ modifies L.reg.array, L.reg.top, L.reg.array[*]
+
+//@ func tableMaxN [C18]
+//@ requires Inv_gfn(L) && isTab(arg(L, 1)) && Inv_arr(argTab(L, 1))
+//@ raises when top(L) + 1 > cap(L.reg.array)
+//@ ensures  result == 1 && top(L) == old(top(L)) + 1 && argsKept(L)
+//@ ensures  forall n int :: old(isListLen(argTab(L, 1), n)) ==> pushed(L, 0) == mkNum(i2f(n))
+//@ modifies L.reg.array, L.reg.top, L.reg.array[*]
+
+// table.remove(t [, pos]): "Removes from table the element at position pos, shifting down other elements to close
+// the space. Returns the value of the removed element. The default value for pos is n, the length of the table."
+//@ define removePos(L *LState, n int) int = ite(nargs(L) == 1, n, f2i(num(arg(L, 2))))
+
+//@ func tableRemove [C18]
+//@ requires Inv_gfn(L) && isTab(arg(L, 1)) && Inv_arr(argTab(L, 1)) && (nargs(L) == 1 || isNum(arg(L, 2))) && nargs(L) >= 1
+//@ requires arrid(argTab(L, 1).array) != arrid(L.reg.array)
+//@ raises when top(L) + 1 > cap(L.reg.array)
+//@ ensures  result == 1 && top(L) == old(top(L)) + 1 && argsKept(L) && Inv_arr(argTab(L, 1))
+//@ ensures  "removed": forall n int :: old(isListLen(argTab(L, 1), n) && 1 <= removePos(L, n) && removePos(L, n) <= n) ==> pushed(L, 0) == old(argTab(L, 1).array[removePos(L, n) - 1]) && len(old(argTab(L, 1)).array) == old(len(argTab(L, 1).array)) - 1 && (forall k int :: 0 <= k && k < old(removePos(L, n)) - 1 ==> old(argTab(L, 1)).array[k] == old(argTab(L, 1).array[k])) && (forall k int :: old(removePos(L, n)) - 1 <= k && k < len(old(argTab(L, 1)).array) ==> old(argTab(L, 1)).array[k] == old(argTab(L, 1).array[k+1]))
+//@ modifies L.reg.array, L.reg.top, L.reg.array[*], type LTable.array, elems(LValue)
